@@ -77,6 +77,28 @@ claim('C17',
       "inp_raw(out_raw(x)) == x is the composition of the two limb-placement contracts (stated in DESIGN, not a separate machine-checked lemma). NOT "
       "covered: mpz_export/import, out_str/inp_str for mpz/mpq/mpf, gmp_fprintf.")
 
+claim('C06',
+      "Full-domain proof (loop-free, all sizes and limb contents, the real mp_bases table linked in) that mpz_sizeinbase is the exact digit count "
+      "ceil(bitlength/k) for the power-of-two bases 2,4,...,256, and 1 for zero.",
+      TB + "NOT covered: digit exactness of mpz_get_str/mpn_get_str/mpz_out_str, every string parser (mpz_set_str, mpz_inp_str, mpq_set_str), "
+      "mpz_sizeinbase for bases that are not powers of two (floating-point log table), the +2 byte bound. The claim is this one function.")
+claim('C18',
+      "Integer layout (__gmp_doprnt_integer, the routine behind %Z/%Q/%N): for symbolic width, precision, flags-derived parameters, base, sign and a "
+      "digit string of unbounded length, the byte at EVERY output position (ghost position) is the one the C rule places there - [pad][sign][prefix]"
+      "[precision zeros][0-flag pad][digits][pad] - the total equals max(width, ...), and -1 is returned exactly when an output callback fails. "
+      "BOUNDED stand-in (not proof) for the flag parser of __gmp_doprnt, which CBMC could not reach: complete native enumeration of "
+      "% flags{0..3} width precision Z conv over 9 values and of all pairs of ten conversions in one format, gmp_sprintf vs the C library.",
+      TB + "Four genuine defects were found by these two checks on the original tree and repaired in /repo (known_findings.txt). NOT covered: %Q with a "
+      "slash, %F (doprntf.c), %N/%M, gmp_snprintf/asprintf buffer accounting, every scanf function. The bounded part trusts glibc's sprintf as the oracle.",
+      technique='contract-based proof of the layout routine (CBMC, ghost output position) + bounded native enumeration of the format grammar (labelled bounded)')
+claim('C19',
+      "Range post-conditions with the generator behind _gmp_rand as an assumed contract: gmp_urandomb_ui < 2^bits; gmp_urandomm_ui in [0,n-1] "
+      "including the 80-iteration fallback (loop unwound completely) and DIVIDE_BY_ZERO exactly for n == 0; mpn_urandomm: result < modulus "
+      "(highest differing limb smaller, limbs above equal); mpz_urandomb: well formed, non-negative, below 2^nbits for every nbits.",
+      TB + "The generators (Mersenne Twister, LC) are ASSUMED to fill ceil(nbits/64) limbs with zero bits above nbits; no unit covers them, nor "
+      "mpz_urandomm, mpz_rrandomb, mpn_randomb/rrandom, mpf_urandomb, gmp_randinit_set, seeding reproducibility or the statistical clauses. "
+      "Termination of rejection loops is not proved.")
+
 for p, why in (
     ('C06', 'not yet implemented in this session'),
     ('C07', 'not yet implemented in this session'),
